@@ -499,7 +499,75 @@ def run_dgrid(c):
     return out
 
 
-RUNNERS = {"grid": run_grid, "dgrid": run_dgrid, "funcrep": run_funcrep, "mapcoord": run_mapcoord, "gridcoord": run_gridcoord, "map": run_map, "call": run_call, "scs": run_scs, "scs-mdl": run_scs_mdl, "argmax": run_argmax, "segargmax": run_segargmax, "reduce": run_reduce}
+# ----------------------------------------------------------------------------- C20
+def _emax(values, layout, sizes, scale):
+    """values: list of groups (lists of floats).  layout 'axes': equal group sizes, choices along the last
+    axis (and a second arrangement along axis 0); 'segments': groups as segments of the leading axis."""
+    import jax.numpy as jnp
+    import numpy as np
+
+    from lcm.discrete_problem import _calculate_emax_extreme_value_shocks
+
+    params = {"additive_utility_shock": {"scale": scale}}
+    if layout == "axes":
+        arr = jnp.asarray(np.array(values, dtype=np.float32))                       # (states, choices)
+        return np.asarray(_calculate_emax_extreme_value_shocks(arr, choice_axes=1, choice_segments=None, params=params), dtype=np.float64)
+    if layout == "axes0":
+        arr = jnp.asarray(np.array(values, dtype=np.float32).T)                     # (choices, states)
+        return np.asarray(_calculate_emax_extreme_value_shocks(arr, choice_axes=(0,), choice_segments=None, params=params), dtype=np.float64)
+    flat = jnp.asarray(np.array([x for g in values for x in g], dtype=np.float32))
+    seg = {"segment_ids": jnp.asarray(np.repeat(np.arange(len(values)), sizes)), "num_segments": len(values)}
+    return np.asarray(_calculate_emax_extreme_value_shocks(flat, choice_axes=None, choice_segments=seg, params=params), dtype=np.float64)
+
+
+def run_lse_exact(c):
+    import math
+
+    import numpy as np
+
+    s = float(c["scale"])
+    vals = [[np.float32(s * math.log(2.0) * m) for m in g] for g in c["groups"]]
+    sizes = [len(g) for g in c["groups"]]
+    r = _emax(vals, c["layout"], sizes, s)
+    mx = np.array([max(float(x) for x in g) for g in vals])
+    out = dict(c)
+    out["obs"] = {"finite": bool(np.isfinite(r).all()),
+                  "k": [MDL.enc(x, quant_den=1 << 12) for x in (r - mx) / (s * math.log(2.0))] if np.isfinite(r).all() else []}
+    return out
+
+
+def run_lse_laws(c):
+    import numpy as np
+
+    s = float(c["scale"])
+    vals = [[np.float32(x) for x in g] for g in c["values"]]
+    sizes = [len(g) for g in vals]
+    cshift = np.float32(c["shift"])
+    unit = float(c["unit"])
+    equal = len(set(sizes)) == 1
+    r_seg = _emax(vals, "segments", sizes, s)
+    r_ax = _emax(vals, "axes", sizes, s) if equal else r_seg
+    r_ax0 = _emax(vals, "axes0", sizes, s) if equal else r_seg
+    r = r_ax if c["layout"] == "axes" else r_seg
+    shifted = [[np.float32(x + cshift) for x in g] for g in vals]
+    r_sh = _emax(shifted, c["layout"] if equal else "segments", sizes, s)
+    mx = np.array([max(float(x) for x in g) for g in vals])
+    fin = bool(np.isfinite(r).all() and np.isfinite(r_sh).all() and np.isfinite(r_ax0).all() and np.isfinite(r_seg).all())
+    out = dict(c)
+    qd = 1 << 12
+    out["sizes"] = sizes
+    if fin:
+        out["obs"] = {"finite": True,
+                      "excess": [MDL.enc(x, quant_den=qd) for x in (r - mx) / s],
+                      "shift": [MDL.enc(x, quant_den=qd) for x in (r_sh - r - float(cshift)) / unit],
+                      "layout": [MDL.enc(x, quant_den=qd) for x in np.maximum(np.abs(r_ax - r_seg), np.abs(r_ax0 - r_seg)) / unit]}
+    else:
+        out["obs"] = {"finite": False, "excess": [], "shift": [], "layout": []}
+    out.pop("values")
+    return out
+
+
+RUNNERS = {"lse-exact": run_lse_exact, "lse-laws": run_lse_laws, "grid": run_grid, "dgrid": run_dgrid, "funcrep": run_funcrep, "mapcoord": run_mapcoord, "gridcoord": run_gridcoord, "map": run_map, "call": run_call, "scs": run_scs, "scs-mdl": run_scs_mdl, "argmax": run_argmax, "segargmax": run_segargmax, "reduce": run_reduce}
 
 
 def run_unit(c):
